@@ -421,3 +421,6 @@ func (h *RecHook) EventsFrom(from int) []Event {
 }
 
 func (h *RecHook) Len() int { h.mu.Lock(); defer h.mu.Unlock(); return len(h.events) }
+
+// Pending returns the bytes the broker wrote that TakeBytes has not consumed yet.
+func (l *Link) Pending() []byte { return l.Conn.outFrom(l.parsed) }
